@@ -72,7 +72,7 @@ EXIT_PATHS = [
     ([['BX', 'bx', []]], {}),
 ]
 HISTORIES = ['single', 'twice', 'thrice', 'overlap_phase', 'overlap_thread',
-             'after_abort']
+             'after_abort', 'late_registration']
 
 
 def enumerated(tier):
@@ -685,9 +685,11 @@ def run_history(case):
   holder = {}
   overlap_result = []
   gate = threading.Event()
+  late = {'cb': None}
+  registered = []      # callback indices in registration order
 
   extra = None
-  if hist in ('overlap_phase', 'overlap_thread', 'after_abort'):
+  if hist in ('overlap_phase', 'overlap_thread', 'after_abort', 'late_registration'):
     extra = hist
 
   b = pm.Built(prog, cfg)
@@ -734,6 +736,15 @@ def run_history(case):
       while True:
         time.sleep(0.002)
     special = [abort_phase]
+  elif extra == 'late_registration':
+    # the last callback is registered while the test is running (a phase that
+    # sets up per-DUT output): it is a registered callback when the run ends
+    def ov_register_phase(test):
+      if late['cb'] is not None:
+        cb, late['cb'] = late['cb'], None
+        holder['t'].add_output_callbacks(cb)
+        registered.append(case['ncb'] - 1)
+    special = [ov_register_phase]
   if special:
     t = H.Test(*(special + b.nodes))
     if cfg.get('sof') == 'opt':
@@ -774,14 +785,18 @@ def run_history(case):
       return functools.partial(lambda extra, rec, _fn=fn: _fn(rec), 'x')
     return fn
 
-  t.add_output_callbacks(*[shape(j, make_cb(j)) for j in range(case['ncb'])])
+  cbs = [shape(j, make_cb(j)) for j in range(case['ncb'])]
+  if extra == 'late_registration':
+    late['cb'] = cbs.pop()
+  registered.extend(range(len(cbs)))
+  t.add_output_callbacks(*cbs)
   conf = {}
   if cfg.get('sof') == 'conf':
     conf['stop_on_first_failure'] = True
   if cfg.get('allow_unset'):
     conf['allow_unset_measurements'] = True
   nruns = {'single': 1, 'twice': 2, 'thrice': 3, 'overlap_phase': 1,
-           'overlap_thread': 1, 'after_abort': 2}[hist]
+           'overlap_thread': 1, 'after_abort': 2, 'late_registration': 2}[hist]
   crashes = []
   old_hook = threading.excepthook
   threading.excepthook = lambda a: crashes.append(a.exc_type.__name__)
@@ -813,10 +828,13 @@ def run_history(case):
         break
       # ---- callbacks: exactly once, in order, same object
       c['callback_calls_judged'] += len(calls)
-      if [x['j'] for x in calls] != list(range(case['ncb'])):
+      if [x['j'] for x in calls] != list(registered):
         bad('callbacks-not-exactly-once-in-order', **ctx,
-            called=[x['j'] for x in calls], raising=case['raising'])
+            called=[x['j'] for x in calls], registered=list(registered),
+            raising=case['raising'])
         break
+      if not calls:
+        continue
       if len({id(x['rec']) for x in calls}) != 1:
         bad('callbacks-got-different-records', **ctx)
       rec = calls[0]['rec']
